@@ -13,6 +13,7 @@ import AgeModel.Extracted.CallOrder
 import Proofs.GoTieScrypt
 import Proofs.GoTieFormat
 import Proofs.GoTieStreamW
+import Proofs.GoTieArmorR
 namespace AgeModel
 namespace Tie.C14
 
@@ -87,6 +88,15 @@ theorem stream_close_returns {α δ : Type} {S : AgeModel.Stream.DstSpec} (A : A
     ∃ res, Extracted.stream_Writer_Close E.seal_ D.write w = .ok res :=
   let ⟨res, h1, _⟩ := GoTie.writer_close_tie A k E D w m h hctr
   ⟨res, h1⟩
+
+/-- the de-armoring reader, translated from armor/armor.go, returns from every state related to a
+    state of the model's machine, whatever text is left and whatever the decoder answers: no index
+    or slice fault, no exhausted fuel (the leading-whitespace loop needs at most one round per
+    remaining byte), no panic -/
+theorem armor_read_returns (E : GoTie.B64DecEnv) (g : Extracted.armor_armoredReader) (m : Armor.AReader)
+    (h : GoTie.ARel g m) (p : Bytes) :
+    ∃ res, Extracted.armor_armoredReader_Read E.Dec g p = .ok res :=
+  GoTie.armor_read_returns E g m h p
 
 end Tie.C14
 end AgeModel
